@@ -139,4 +139,47 @@ def ownLiveOk (p : Pipeline) (d : Gi) (gr : Goroutine) (m : List Bool) : Bool :=
 def CollectorOk (p : Pipeline) (d : Gi) (gd : Goroutine) (c r : Ch) : Bool :=
   collectorCloses p d gd c r && ownFwdOk gd c (ownD gd c r) && ownLiveOk p d gd (ownD gd c r)
 
+/-- the hand-offs of a pipeline: `(d, c, r)` = channel `c` follows discipline C with hand-off channel
+    `r`, and `d` is the collector (the one goroutine that receives on `r`), which closes `c` somewhere -/
+def handoffs (p : Pipeline) : List (Gi × Ch × Ch) :=
+  -- hand-off channels: exactly one goroutine sends on `r`, exactly one (the collector) receives on it
+  let rs := (List.range p.chans.length).filterMap fun r =>
+    match p.gsWhere (fun gr => gr.hasSend r), p.gsWhere (fun gr => gr.hasRecv r) with
+    | [_], [d] => some (r, d)
+    | _, _ => none
+  rs.flatMap fun x => match p.gs[x.2]? with
+    | some gd => (List.range p.chans.length).filterMap fun c =>
+        if gd.hasClose c && discCr p c x.1 then some (x.2, c, x.1) else none
+    | none => []
+
+/-- every collector of the pipeline passes `CollectorOk` for every channel it is handed -/
+def CollectorsOk (p : Pipeline) : Bool :=
+  (handoffs p).all fun x => match p.gs[x.1]? with
+    | some gd => CollectorOk p x.1 gd x.2.1 x.2.2
+    | none => false
+
+/-- `CollectorsOk` and the number of hand-offs in one evaluation (kernel evaluation of `handoffs` on the
+    key-generation pipeline is slow) -/
+def collectorsCheck (p : Pipeline) (k : Nat) : Bool :=
+  match handoffs p with
+  | hs => hs.length == k && hs.all fun x => match p.gs[x.1]? with
+    | some gd => CollectorOk p x.1 gd x.2.1 x.2.2
+    | none => false
+
+/-! ### W6 -/
+
+/-- W6 as one decidable check: every channel somebody sends on has a receiver -/
+def W6 (p : Pipeline) : Bool :=
+  (List.range p.chans.length).all fun c => !p.gs.any (fun gr => gr.hasSend c) || p.gs.any (fun gr => gr.hasRecv c)
+
+/-- nobody has a receive on `c` (W6 fails for `c` as soon as somebody sends on it) -/
+def Receiverless (p : Pipeline) (c : Ch) : Prop := ∀ gr ∈ p.gs, gr.hasRecv c = false
+
+/-- a consumer of `c` is ready for the sender `g`: room in the buffer, or (unbuffered) another
+    goroutine stands at a receive on `c` -/
+def ConsumerReady (p : Pipeline) (s : State) (g : Gi) (c : Ch) : Prop :=
+  s.len c < p.cap c ∨
+  (p.cap c = 0 ∧ ∃ g' pc' nd' n', g' ≠ g ∧ s.gs[g']? = some (.at pc') ∧ p.node g' pc' = some nd' ∧
+    (Lab.recvOk c, n') ∈ nd'.edges)
+
 end Dos.Pipe
